@@ -70,14 +70,20 @@ Definition open (kek : N) (f : term) : option term :=
   | _ => None
   end.
 
+(* Opening with the key the caller gives.  Second component: uses of THAT key: it is
+   consulted exactly once as soon as the file parses as a version-1 wrapper whose DEK field
+   is a ciphertext (whether or not it then unwraps), and not at all otherwise.  No other key
+   is ever consulted, and nothing but the file and the given key enters the result - in
+   particular not what an earlier open in the same process found. *)
 Definition c_open (kek : N) (f : term) : option (cstate * term) * N :=
-  (match f, open kek f with
-   | Tup [_; Tup [_; Code dekf]; _], Some doc =>
-       match dekf with
-       | Enc _ _ _ (Key dek) => Some ({| c_dek := dek; c_dekraw := dekf |}, doc)
-       | _ => None end
-   | _, _ => None
-   end, 1).
+  match wrapper_fields f with
+  | Some (Pub 1, Enc k ad r m, dbf) =>
+      (match open kek f, m with
+       | Some doc, Key dek => Some ({| c_dek := dek; c_dekraw := Enc k ad r m |}, doc)
+       | _, _ => None
+       end, 1)
+  | _ => (None, 0)
+  end.
 
 (* ---- the audit record: principal, action, name, version, flag - no value field ---- *)
 Definition action_code (a : action) : N :=
@@ -90,21 +96,47 @@ Definition entry_term (e : entry) : term :=
 Definition audit_terms (fx : list effect) : list term :=
   flat_map (fun e => match e with EAudit x => [entry_term x] | _ => [] end) fx.
 
-(* returns (database files incl. temporaries, audit lines, KEK uses) *)
-Fixpoint run_terms (c : cstate) (s : dbstate N) (h : list (env * caller * op N * N)) : list term * list term * N :=
+(* a history: calls (each with the nonce of its save, if any) and REOPENS - the handle is
+   dropped and the file on disk is opened again with the same key *)
+Inductive hstep :=
+| HCall (ev : env) (cl : caller) (o : op N) (r : N)
+| HReopen.
+
+Definition count_reopens (h : list hstep) : N :=
+  N.of_nat (length (filter (fun x => match x with HReopen => true | _ => false end) h)).
+
+(* [f] is the file currently on disk.  Returns (database files incl. temporaries, audit lines,
+   KEK uses).  A reopen that fails ends the history (the server does not start). *)
+Fixpoint run_terms (kek : N) (c : cstate) (s : dbstate N) (f : term) (h : list hstep) : list term * list term * N :=
   match h with
   | [] => ([], [], 0)
-  | (ev, cl, o, r) :: h' =>
+  | HCall ev cl o r :: h' =>
       let '(s', _, fx) := db_step N.eqb ev s cl o in
-      let '(f, u) := c_save c r (doc_term (kv s')) in
-      let '(files, audits, uses) := run_terms c s' h' in
-      ((if has_save fx then [f; f] else []) ++ files,     (* the temporary and, after the rename, the live file *)
+      let '(f', u) := c_save c r (doc_term (kv s')) in
+      let saved := has_save fx in
+      let '(files, audits, uses) := run_terms kek c s' (if saved then f' else f) h' in
+      ((if saved then [f'; f'] else []) ++ files,     (* the temporary and, after the rename, the live file *)
        audit_terms fx ++ audits,
-       (if has_save fx then u else 0) + uses)
+       (if saved then u else 0) + uses)
+  | HReopen :: h' =>
+      match c_open kek f with
+      | (Some (c', _), u) =>
+          let '(files, audits, uses) := run_terms kek c' (db_open (kv s)) f h' in
+          (files, audits, u + uses)
+      | (None, u) => ([], [], u)
+      end
   end.
+
+(* the file a freshly created database writes first *)
+Definition first_file (c : cstate) (r0 : N) : term := fst (c_save c r0 (doc_term [])).
 
 (* ---- monitor on the outcome of opening a damaged / spliced file ---- *)
 Inductive outcome (D : Type) := OErr | OOpened (d : D).
 Arguments OErr {D}.
+(* key use of one open attempt: a successful open consulted the key it was given exactly
+   once; a failed one at most once; the keys it was not given were not consulted *)
+Definition open_uses_ok (opened : bool) (given others : N) : bool :=
+  (if opened then given =? 1 else given <=? 1) && (others =? 0).
+
 Definition tamper_ok {D} (deq : D -> D -> bool) (original : D) (o : outcome D) : bool :=
   match o with OErr => true | OOpened d => deq d original end.
